@@ -69,6 +69,7 @@ type tr3 struct {
 	sites   []string
 	methods map[string]method3
 	inRange int
+	canon   map[string]string // declared field name -> canonical name
 }
 
 func exprString(e ast.Expr) string {
@@ -217,6 +218,35 @@ func (t *tr3) collectStruct(n ast.Node) {
 			t.ftypes[nm.Name] = f.Type
 		}
 	}
+	// Canonical field names (as for locals and parameters, so that renamings of unexported fields do not reach Coq): a field that
+	// is the ONLY one of its kind (data kinds) or of its type (the lock, the condition variable, the cleaner configuration) is
+	// given the name the hand-written side (Model/BufferSrc.v) uses for that role.
+	want := map[string]string{"int": "offset", "slice": "buffer", "map": "consumers", "ctx": "ctx",
+		"opaque:sync.RWMutex": "mutex", "opaque:*sync.Cond": "cond", "opaque:*CleanerConfig": "cleaner"}
+	byRole := map[string][]string{}
+	for _, f := range st.Fields.List {
+		for _, nm := range f.Names {
+			role := t.fields[nm.Name]
+			if role == "opaque" {
+				role = "opaque:" + exprString(f.Type)
+			}
+			byRole[role] = append(byRole[role], nm.Name)
+		}
+	}
+	t.canon = map[string]string{}
+	for role, names := range byRole {
+		c, ok := want[role]
+		if !ok || len(names) != 1 || names[0] == c {
+			continue
+		}
+		if _, clash := t.fields[c]; clash {
+			continue
+		}
+		t.canon[names[0]] = c
+		t.fields[c], t.ftypes[c] = t.fields[names[0]], t.ftypes[names[0]]
+		delete(t.fields, names[0])
+		delete(t.ftypes, names[0])
+	}
 }
 
 // recvField: is e `b.f` for the receiver b? returns the field name
@@ -234,6 +264,9 @@ func (t *tr3) recvField(e ast.Expr) (string, bool) {
 	}
 	if !t.isRecv(sel.X) {
 		return "", false
+	}
+	if c, ok := t.canon[sel.Sel.Name]; ok {
+		return c, true
 	}
 	return sel.Sel.Name, true
 }
